@@ -12,8 +12,9 @@ CONSTANTS MaxK,        \* owner names besides the apex
           Thorough     \* BOOLEAN: more type sets per name
 
 VARIABLES zone, cfg, phase, coll, passes, groups, gi, ri, cut, sigs,
-          aux     \* the oracle's answer for (zone, cfg), computed once: [want, view]
-vars == <<zone, cfg, phase, coll, passes, groups, gi, ri, cut, sigs, aux>>
+          aux,    \* the oracle's answer for (zone, cfg), computed once: [want, view]
+          acts    \* names of the actions taken so far (vacuity guard, see ActsSeen)
+vars == <<zone, cfg, phase, coll, passes, groups, gi, ri, cut, sigs, aux, acts>>
 
 la == <<97>>  lb == <<98>>  lc == <<99>>  lA == <<65>>  lB == <<66>>
 ex == <<101, 120>>  Ex == <<69, 120>>  fx == <<102, 120>>
@@ -107,6 +108,7 @@ Init ==
                              cfg = MkCfg(z, apxS, soa, den, mode, per)
   /\ phase = "start" /\ coll = (IF cfg.mode = "inplace" THEN zone ELSE {})
   /\ passes = <<>> /\ groups = <<>> /\ gi = 0 /\ ri = 0 /\ cut = None /\ sigs = <<>>
+  /\ acts = {}
   /\ aux = LET w == SignedZone(zone, cfg.apex, cfg)
            IN [want |-> w, view |-> View(zone \cup w.den, cfg.apex),
                osigs |-> IF w.err THEN OracleSigs(zone \cup w.den, cfg.apex, cfg) ELSE w.sigs]
@@ -177,8 +179,18 @@ Extend ==
   /\ phase' = "done"
   /\ UNCHANGED <<aux, zone, cfg, coll, passes, groups, gi, ri, cut, sigs>>
 
-Next == GenDenial \/ StartPass \/ OwnerEnd \/ OwnerBreak \/ OwnerSkip \/ OwnerVisit
-        \/ RrsetSkip \/ RrsetSign \/ RrsetRefuse \/ Extend
+Act(a) == acts' = acts \cup {a}
+Next ==
+  \/ (GenDenial /\ Act("GenDenial"))
+  \/ (StartPass /\ Act("StartPass"))
+  \/ (OwnerEnd /\ Act("OwnerEnd"))
+  \/ (OwnerBreak /\ Act("OwnerBreak"))
+  \/ (OwnerSkip /\ Act("OwnerSkip"))
+  \/ (OwnerVisit /\ Act("OwnerVisit"))
+  \/ (RrsetSkip /\ Act("RrsetSkip"))
+  \/ (RrsetSign /\ Act("RrsetSign"))
+  \/ (RrsetRefuse /\ Act("RrsetRefuse"))
+  \/ (Extend /\ Act("Extend"))
 Spec == Init /\ [][Next]_vars
 
 --------------------------------------------------------------------------
@@ -257,6 +269,10 @@ CfgOk == \A ki \in 1..Len(cfg.keys) : NameEq(cfg.keys[ki].owner, Apex)
 
 --------------------------------------------------------------------------
 (* S->I cases: one per finished behaviour *)
+\* vacuity guard (TLC's -coverage is prohibitively slow on this module): every
+\* finished behaviour reports the actions it took; the driver requires each
+\* action in the union
+ActsSeen == phase \in {"done", "err"} => PrintT("ACTS " \o ToJson(SortSetBy(acts, LAMBDA a, b : FALSE)))
 SortSeqBy(S, Less(_, _)) == SortSetBy(S, Less)
 NameOfHash(l) ==      \* the name whose hash label is l
   CHOOSE x \in DOMAIN cfg.rank : HLabel(cfg.rank[x]) = l
